@@ -25,7 +25,7 @@ COMPONENTS = {"real": ["ECAgent.Environments.DiscreteWorld.add_cell_component / 
 PROBES = ["src_callable", "src_list", "src_ndarray_int", "src_ndarray_float", "src_const", "src_lookup_list",
           "src_lookup_nd", "alias_after_ndarray", "alias_after_list", "zero_extent_below_populated", "readd_removed_name",
           "remove_unknown_rejected", "lookup_1d", "lookup_2d", "lookup_3d", "get_cell_compared", "generator_object_reused", "readd_live_name_overwrites", "src_lookup_reuse",
-          "src_lookup_rebind", "src_const_reuse"]
+          "src_lookup_rebind", "src_const_reuse", "src_const_tuple", "src_const_subclass"]
 TECHNIQUE = "deterministic simulation: seeded add/remove histories of cell components with injected rejected removals and caller-side buffer mutation vs a per-cell reference table"
 LEVEL_TEXT = ("Seeded search over grid shapes, source kinds and add/remove histories; after every operation the column set, the "
               "position column and every cell of every live component must equal the reference (so no add / remove disturbs "
@@ -36,7 +36,14 @@ LEVEL_NOTE = ("Trusted: the per-cell reference; the set of cells is taken from t
               "positive extents.")
 SHRINK_LISTS = ["ops"]
 KINDS = ["callable", "list", "ndarray_int", "ndarray_float", "const", "lookup_list", "lookup_nd", "lookup_reuse",
-         "lookup_rebind", "const_reuse"]
+         "lookup_rebind", "const_reuse", "const_tuple", "const_subclass"]
+
+
+class PosConstant(ConstantGenerator):
+    """A user subclass of the bundled generator that overrides __call__ (value offset by the cell's coordinates)."""
+
+    def __call__(self, pos, cells):
+        return self.value + pos[0] * 10000 + pos[1] * 100 + pos[2]
 
 
 def generate(rng, tier):
@@ -69,6 +76,15 @@ def generate(rng, tier):
         else:
             ops.append({"op": "readback"})
     return {"world": world, "ops": ops}
+
+
+def _same(a, b):
+    if isinstance(b, tuple):
+        return isinstance(a, tuple) and a == b
+    try:
+        return bool(a == b)
+    except Exception:
+        return False
 
 
 def enc(serial, pos):
@@ -104,7 +120,7 @@ def execute(sc, ctx):
             ctx.check(len(col) == n, "column-length", f"{where}: {name}")
             for i in range(n):
                 got = col[i]
-                ctx.check(got == rec["vals"][i], "cell-value",
+                ctx.check(_same(got, rec["vals"][i]), "cell-value",
                           lambda: f"{where}: component {name!r} ({rec['kind']}) cell id {i} at {cells[i]} holds {got!r}, "
                                   f"its source assigns {rec['vals'][i]!r}")
         if W > 0 and H > 0 and D > 0 and live:
@@ -113,7 +129,7 @@ def execute(sc, ctx):
                 x, y, z = cells[i]
                 row = ctx.expect_ok("get_cell", env.get_cell, x, y, z)
                 for name, rec in live.items():
-                    ctx.check(row[name] == rec["vals"][i], "get_cell-value", f"{where}: get_cell{cells[i]}[{name!r}]")
+                    ctx.check(_same(row[name], rec["vals"][i]), "get_cell-value", f"{where}: get_cell{cells[i]}[{name!r}]")
 
     for op in sc["ops"]:
         kind = op["op"]
@@ -139,6 +155,14 @@ def execute(sc, ctx):
             elif src == "const":
                 gen = ConstantGenerator(serial * 7 + 1)
                 vals = [serial * 7 + 1] * n
+            elif src == "const_tuple":
+                # the constant is itself a sequence (an RGB triple, a pair ...): every cell holds that very value
+                tup = (serial, 128, 0) if serial % 2 else tuple(range(serial, serial + n))
+                gen = ConstantGenerator(tup)
+                vals = [tup] * n
+            elif src == "const_subclass":
+                gen = PosConstant(serial * 1000000)
+                vals = [enc(serial, p) for p in cells]
             elif src == "const_reuse":
                 # one generator object used for several components, its value changed in between
                 if "const" not in shared:
